@@ -48,6 +48,13 @@ fn types() -> Vec<(&'static str, Box<dyn Fn(&mut ColumnDef)>, Aff)> {
     t!("binary_len", |c: &mut ColumnDef| { c.binary_len(9); }, Aff::Blob); t!("var_binary", |c: &mut ColumnDef| { c.var_binary(33); }, Aff::Blob); t!("blob", |c: &mut ColumnDef| { c.blob(); }, Aff::Blob);
     t!("boolean", |c: &mut ColumnDef| { c.boolean(); }, Aff::Numeric); t!("money", |c: &mut ColumnDef| { c.money(); }, Aff::Real); t!("money_len", |c: &mut ColumnDef| { c.money_len(11, 2); }, Aff::Real);
     t!("json", |c: &mut ColumnDef| { c.json(); }, Aff::Text); t!("json_binary", |c: &mut ColumnDef| { c.json_binary(); }, Aff::Text); t!("uuid", |c: &mut ColumnDef| { c.uuid(); }, Aff::Text);
+    // forms only reachable through ColumnDef::new_with_type (the builder methods always give a length)
+    t!("var_binary none", |c: &mut ColumnDef| { *c = ColumnDef::new_with_type(Alias::new("c"), ColumnType::VarBinary(StringLen::None)); }, Aff::Blob);
+    t!("var_binary max", |c: &mut ColumnDef| { *c = ColumnDef::new_with_type(Alias::new("c"), ColumnType::VarBinary(StringLen::Max)); }, Aff::Blob);
+    t!("string max", |c: &mut ColumnDef| { *c = ColumnDef::new_with_type(Alias::new("c"), ColumnType::String(StringLen::Max)); }, Aff::Text);
+    t!("char none", |c: &mut ColumnDef| { *c = ColumnDef::new_with_type(Alias::new("c"), ColumnType::Char(None)); }, Aff::Text);
+    t!("decimal none", |c: &mut ColumnDef| { *c = ColumnDef::new_with_type(Alias::new("c"), ColumnType::Decimal(None)); }, Aff::Real);
+    t!("money none", |c: &mut ColumnDef| { *c = ColumnDef::new_with_type(Alias::new("c"), ColumnType::Money(None)); }, Aff::Real);
     t!("enumeration", |c: &mut ColumnDef| { c.enumeration(a("e"), [a("x"), a("y")]); }, Aff::Text);
     v
 }
@@ -107,6 +114,12 @@ pub fn cases() -> Vec<Case> {
         if has(Sp::Check) && !has(Sp::Generated) { c = c.fails("INSERT INTO \"t\" (\"k\", \"c\") VALUES (1, 0)").ok("INSERT INTO \"t\" (\"k\", \"c\") VALUES (1, 5)"); }
         if has(Sp::Extra) { c = c.check("SELECT sql LIKE '%COLLATE NOCASE%' FROM sqlite_master WHERE name = 't'", "[[1]]"); }
         out.push(c);
+    }
+    // generated columns: STORED (hidden = 3) and VIRTUAL (hidden = 2)
+    for (stored, hidden) in [(true, 3), (false, 2)] {
+        let sql = run(move || Table::create().table(a("t")).col(ColumnDef::new(a("k")).integer()).col(ColumnDef::new(a("c")).integer().generated(Expr::col(a("k")).mul(2), stored)).to_string(SqliteQueryBuilder));
+        if let Some(sql) = sql { out.push(Case::new(format!("generated stored={stored}")).ok(sql).ok("INSERT INTO \"t\" (\"k\") VALUES (21)")
+            .check("SELECT name, hidden FROM pragma_table_xinfo('t')", format!("[[\"k\",0],[\"c\",{hidden}]]")).check("SELECT \"c\" FROM \"t\"", "[[42]]")); }
     }
     // ---- 3. tables with table-level constraints and foreign keys, subsets of elements, declaration order kept
     for mask in 0..32u32 {
